@@ -717,6 +717,8 @@ class Interp:
                 if kk >= 0 and tr_full.endswith(">"):
                     targs = self.subst(tr_full[kk + 1 : -1], frame)
             ty = self.subst(ty, frame)
+            if not self._maybe_local(ty, inner[k + 4 :] if st is not None else None):
+                return None
             it = self.p.find_impl(ty, trait, method, targs)
             if it is not None:
                 return it
@@ -748,6 +750,34 @@ class Interp:
             if k_m == method and k_ty == st:
                 return self.p._pick(its, ty)
         return None
+
+    def _maybe_local(self, ty, trait_full):
+        """Orphan rule: a repo impl needs a local trait or a local (or generic/dyn) self type."""
+        roots = self.repo_roots()
+        t = ty.strip()
+        while t.startswith("&") or t.startswith("mut ") or t.startswith("'"):
+            if t.startswith("&"):
+                t = t[1:].lstrip()
+            elif t.startswith("mut "):
+                t = t[4:]
+            else:
+                t = t.split(" ", 1)[1] if " " in t else ""
+        head = t.split("<")[0].strip("()[] ")
+        root = head.split("::")[0]
+        if root in roots and "::_::_serde" not in head:
+            return True
+        if "::" not in head and (re.fullmatch(r"[A-Z]\w{0,10}", head) or head.startswith("dyn ") or head == "Self"):
+            return True
+        if head.startswith("dyn ") or head.startswith("(dyn "):
+            return True
+        if trait_full is not None:
+            tr = trait_full.strip()
+            if tr.split("::")[0] in roots and "::_::_serde" not in tr:
+                return True
+            for w in re.findall(r"(?<![\w:])(\w+)::", tr):
+                if w in roots and w not in ("std", "core", "alloc"):
+                    return True
+        return False
 
     def _resolve_dyn(self, raw, frame, args):
         """Dynamic dispatch on the run-time type of the receiver."""
